@@ -38,17 +38,20 @@ Ops(nw) ==
                            Op("copy", "", 0, <<>>, "p1", "", <<0, 1>>, FALSE, "ok")}
           ELSE {})
     \cup {[Op("lambda", "AUTO", c, <<>>, "p1", r, <<>>, FALSE, bh) EXCEPT !.stdin = si] :
-              c \in {1, 2, 3}, r \in {"u", "b"}, bh \in {"ok", "exit3", "logserr", "waiterr", "attacherr"}, si \in BOOLEAN}
+              c \in {1, 2, 3, 4}, r \in {"u", "b"}, bh \in {"ok", "exit3", "logserr", "waiterr", "attacherr"}, si \in BOOLEAN}
     \cup {Op("setnode", "", 0, <<"n1">>, "p1", "", <<>>, FALSE, d) : d \in {"mem+", "cpu+", "mem-"}}
     \cup {Op("addnode", "", 0, <<"n9">>, "p1", "", <<>>, FALSE, ""), Op("addnode", "", 0, <<"n1">>, "p1", "", <<>>, FALSE, "")}
     \cup {Op("removenode", "", 0, <<"n2">>, "p1", "", <<>>, FALSE, ""), Op("removepod", "", 0, <<>>, "p1", "", <<>>, FALSE, ""),
           Op("fix", "", 0, <<"n1">>, "p1", "", <<>>, FALSE, "")}
 Scenarios == {[nodes |-> Layout(lay), wls |-> WlSet(ws), op |-> o, mode |-> m, every |-> 1] :
-                 lay \in Layouts, ws \in WlSets, o \in UNION {Ops(Len(WlSet(w))) : w \in WlSets}, m \in Modes \cup {"once"}}
+                 lay \in Layouts, ws \in WlSets, o \in UNION {Ops(Len(WlSet(w))) : w \in WlSets}, m \in Modes \cup {"once", "burst"}}
 Valid(s) == /\ \A i \in 1..Len(s.op.targets) : s.op.targets[i] < Len(s.wls)
             /\ (s.op.kind \in {"remove", "dissociate", "realloc", "replace", "control", "copy", "execute"} => Len(s.wls) > 0)
             /\ (s.mode = "crash" => s.op.kind = "create")
-            /\ (s.op.kind = "lambda" <=> s.mode = "once")
+            /\ (s.op.kind = "lambda" <=> s.mode \in {"once", "burst"})
+            \* "burst": the instances of one run-and-wait request finish their creation at the same moment (several rounds)
+            /\ (s.mode = "burst" => s.op.count >= 2 /\ s.op.delta = "ok" /\ ~s.op.stdin /\ s.op.req = "u")
+            /\ (s.op.count = 4 => s.mode = "burst")
             /\ (s.op.kind = "lambda" => (s.op.stdin => s.op.count = 1) /\ (s.op.delta = "attacherr" => s.op.stdin) /\ s.wls = <<>>)
             /\ (Len(s.op.targets) = 2 => Len(s.wls) >= 2)
             /\ (s.nodes = Layout("one-down") => (s.wls = <<>> /\ s.op.kind \in {"removepod", "removenode", "setnode", "addnode", "fix"} /\ s.mode = "fault"))
